@@ -487,4 +487,30 @@ theorem sim3_optimal_of_form (ps : Pairs ℝ) (hN : ps ≠ []) (hA : 0 < energyS
   nlinarith [h1, h2, hd']
 
 
+/-! ## pass 10: the iterates of the ICP loop -/
+
+/-- `k + n` passes are `k` passes followed by `n` passes -/
+theorem icpIter_add (align : Pairs ℝ → SE3 ℝ) (nn : Cloud ℝ → Vec3 ℝ → Nat) (tgt : Cloud ℝ) (k n : Nat) (cur : Cloud ℝ) :
+    icpIter align nn tgt (k + n) cur = icpIter align nn tgt n (icpIter align nn tgt k cur) := by
+  induction k generalizing cur with
+  | zero => simp [icpIter]
+  | succ k ih =>
+    have : k + 1 + n = (k + n) + 1 := by omega
+    rw [this]
+    simp only [icpIter]
+    exact ih _
+
+/-- a point of the target is its own nearest target point, whatever kernel meets the contract -/
+theorem nn_self_of_mem (nn : Cloud ℝ → Vec3 ℝ → Nat) (tgt : Cloud ℝ) (hnn : NNOk nn tgt) (p : Vec3 ℝ) (hin : p ∈ tgt) :
+    tgt.getD (nn tgt p) Vec3.zero = p := by
+  have hle := (hnn p).2 _ hin
+  have hzero : (p.sub p).normSq = 0 := by lie_unfold; ring
+  rw [hzero] at hle
+  have := normSq_eq_zero _ (le_antisymm hle (Align.normSq_nonneg _))
+  generalize tgt.getD (nn tgt p) Vec3.zero = g at this ⊢
+  have hx := congrArg Vec3.x this; have hy := congrArg Vec3.y this; have hz' := congrArg Vec3.z this
+  simp only [Vec3.sub, Vec3.zero, k_real, Nat.cast_zero] at hx hy hz'
+  apply Vec3.ext' <;> linarith
+
+
 end PP.C17
